@@ -204,7 +204,7 @@ def gen_vinfo(rng, name):
         vi.doc_string = "vdoc"
         return vi
     return H.make_tensor_value_info(name, rng.choice([TP.FLOAT, TP.INT64, TP.BOOL]),
-                                    rng.choice([[1], [2, 3], [], ["N"], [None, 4]]))
+                                    rng.choice([[1], [2, 3], [], ["N"], [None, 4], ["2*4", 3], ["N+1", "1+1"], ["2**3"]]))
 
 
 class _Names:
@@ -409,7 +409,7 @@ MUTATIONS = ["rename_existing", "rename_empty", "rename_new", "drop", "duplicate
              "bad_utf8", "clear_type", "map_type", "seq_no_elem", "output_repeat", "output_like_input",
              "move_node_inner", "dup_function", "fn_output_unknown", "attr_dup_name", "init_unnamed",
              "vi_for_unknown", "graph_attr_ref", "swap_scopes", "dup_init", "subgraph_output_outer",
-             "name_field_absent", "generated_names", "dangling_with_external", "ir_version_low", "fn_attr_dup_graph"]
+             "name_field_absent", "generated_names", "dangling_with_external", "ir_version_low", "fn_attr_dup_graph", "dim_param_expr"]
 
 
 def mutate(m, rng, kind=None):
@@ -716,6 +716,15 @@ def mutate(m, rng, kind=None):
                 f.attribute_proto.append(H.make_attribute("fa", 7))
             else:
                 f.attribute.append("fa")
+        elif kind == "dim_param_expr":
+            # a dim_param whose text is a constant arithmetic expression must be kept as given
+            tys = [t for t in all_types(m) if t.HasField("tensor_type")]
+            if not tys:
+                return None
+            t = rng.choice(tys)
+            d = t.tensor_type.shape.dim.add() if (not len(t.tensor_type.shape.dim) or rng.random() < 0.5) \
+                else rng.choice(t.tensor_type.shape.dim)
+            d.dim_param = rng.choice(["2*4", "3", "1+1", "2**3", "2**3**2", "(1+2)*4", "10//3", "7-7", "-1", "N*2", "0"])
         elif kind == "dup_init":
             gs = [g for g in graphs if len(g.initializer)]
             if not gs:
@@ -981,6 +990,49 @@ def oracle_invariants(model) -> list[str]:
     return bad
 
 
+def _shape_of_type(tp):
+    """The TensorShapeProto a TypeProto carries (through sequence/optional nesting), or None."""
+    if tp.HasField("tensor_type"):
+        return tp.tensor_type.shape if tp.tensor_type.HasField("shape") else None
+    if tp.HasField("sparse_tensor_type"):
+        return tp.sparse_tensor_type.shape if tp.sparse_tensor_type.HasField("shape") else None
+    if tp.HasField("sequence_type") and tp.sequence_type.HasField("elem_type"):
+        return _shape_of_type(tp.sequence_type.elem_type)
+    if tp.HasField("optional_type") and tp.optional_type.HasField("elem_type"):
+        return _shape_of_type(tp.optional_type.elem_type)
+    return None
+
+
+def oracle_leaf_dims(proto) -> list[str]:
+    """Deserialization keeps every dimension as given: dim_value -> that int, dim_param -> a symbolic dimension
+    with exactly that text, neither -> unknown (independent reading of the proto vs the library's leaf reader)."""
+    from onnx_ir import serde
+    bad = []
+    types = list(all_types(proto))
+    for f in proto.functions:
+        types += [vi.type for vi in getattr(f, "value_info", [])]
+    for tp in types:
+        sp = _shape_of_type(tp)
+        if sp is None:
+            continue
+        try:
+            shape = serde.deserialize_tensor_shape(sp)
+        except Exception:  # noqa: BLE001
+            continue
+        if len(shape) != len(sp.dim):
+            bad.append(f"leaf: a shape with {len(sp.dim)} dims is read as rank {len(shape)}")
+            continue
+        for d, got in zip(sp.dim, shape):
+            which = d.WhichOneof("value")
+            want = d.dim_value if which == "dim_value" else ("sym", d.dim_param if which == "dim_param" else None)
+            have = got if isinstance(got, int) else ("sym", got.value)
+            if isinstance(have, tuple) and isinstance(have[1], bytes) or isinstance(want, tuple) and isinstance(want[1], bytes):
+                continue
+            if want != have:
+                bad.append(f"leaf: dimension {want!r} of the proto is read as {have!r}")
+    return bad
+
+
 def model_tensors(model):
     import onnx_ir as ir
     w = S.IRWalk(model)
@@ -1029,6 +1081,7 @@ def run_impl(proto) -> dict:
     if tr.events:
         res["oracle"].append(f"file access during tensor inspection: {tr.events[:3]}")
     res["oracle"] += oracle_invariants(model)
+    res["oracle"] += oracle_leaf_dims(proto)[:3]
     try:
         q = ir.to_proto(model)
     except Exception as e:  # noqa: BLE001
@@ -1403,6 +1456,13 @@ def repair_known_sites(p):
       initializer that is not a graph input (it erases the type the deserializer derived from the tensor)."""
     q = copy.deepcopy(p)
     changed = False
+    # experimental-function-value-info-name-collision: value names of the form "<domain>::<function>/<value>"
+    if q.ir_version < 10 and len(q.functions):
+        for get, put in name_slots(q):
+            k = get()
+            if isinstance(k, str) and "::" in k and "/" in k:
+                put(k.replace("::", "__"))
+                changed = True
     # reser-duplicate-initializer-bad-dtype: keep only the LAST initializer of every repeated name
     for g in all_graphs(q):
         names = [t.name for t in g.initializer]
